@@ -27,6 +27,73 @@ def flatten(cond: T.Term, tag: str) -> List[T.Term]:
     return [cond]
 
 
+class _NotFinite(Exception):
+    pass
+
+
+def gate_truth_table(t: Any, magic_atoms: Any, msg: Any) -> Optional[Set[Any]]:
+    """The set of (magic holds?, length) pairs a gate accepts, when the gate is a boolean / choice combination of exactly
+    two kinds of atoms: the magic test and tests of len(m) against integer constants.  Such a gate depends on m only
+    through one boolean and through which of the finitely many mentioned constants (or none of them: None) the length
+    equals, so evaluating the term for every combination decides it - a finite abstraction, no input is chosen."""
+    consts: Set[int] = set()
+
+    def atoms(x: Any) -> None:
+        if not isinstance(x, tuple) or x in magic_atoms:
+            return
+        if x[:1] == ("cmp",) and len(x) == 4 and ("len", msg) in (x[2], x[3]):
+            other = x[3] if x[2] == ("len", msg) else x[2]
+            if T.is_c(other) and type(other[1]) is int:
+                consts.add(other[1])
+            elif isinstance(other, tuple) and other[:1] == ("tuple",) and all(T.is_c(k) and type(k[1]) is int for k in other[1]):
+                consts.update(k[1] for k in other[1])
+            return
+        for y in x:
+            atoms(y)
+
+    def ev(x: Any, m: bool, ln: Optional[int]) -> bool:
+        if x in magic_atoms:
+            return m
+        if T.is_c(x) and isinstance(x[1], bool):
+            return x[1]
+        if isinstance(x, tuple) and x[:1] == ("and",):
+            return all(ev(y, m, ln) for y in x[1:])
+        if isinstance(x, tuple) and x[:1] == ("or",):
+            return any(ev(y, m, ln) for y in x[1:])
+        if isinstance(x, tuple) and x[:1] == ("not",) and len(x) == 2:
+            return not ev(x[1], m, ln)
+        if isinstance(x, tuple) and x[:1] == ("ite",) and len(x) == 4:
+            return ev(x[2], m, ln) if ev(x[1], m, ln) else ev(x[3], m, ln)
+        if isinstance(x, tuple) and x[:1] == ("cmp",) and len(x) == 4:
+            if x[2] == ("len", msg) and T.is_c(x[3]) and type(x[3][1]) is int and x[1] in ("==", "!="):
+                return (ln == x[3][1]) == (x[1] == "==")
+            if x[3] == ("len", msg) and T.is_c(x[2]) and type(x[2][1]) is int and x[1] in ("==", "!="):
+                return (ln == x[2][1]) == (x[1] == "==")
+            if x[2] == ("len", msg) and x[1] in ("in", "not in") and isinstance(x[3], tuple) and x[3][:1] == ("tuple",) and all(T.is_c(k) and type(k[1]) is int for k in x[3][1]):
+                return (ln in {k[1] for k in x[3][1]}) == (x[1] == "in")
+        raise _NotFinite()
+
+    atoms(t)
+    try:
+        return {(m, ln) for m in (True, False) for ln in sorted(consts) + [None] if ev(t, m, ln)}   # type: ignore[list-item]
+    except _NotFinite:
+        return None
+
+
+def ranges_as_tuples(x: Any) -> Any:
+    """`v in range(a, b[, step])` with integer constants (at most 64 members) is `v in (a, a+step, ...)`: the same
+    finite set for the integer `len(...)` the gate tests, spelled as the tuple form the rule compares."""
+    if not isinstance(x, tuple):
+        return x
+    if (len(x) == 4 and x[0] == "cmp" and x[1] in ("in", "not in") and isinstance(x[3], tuple) and x[3][:1] == ("app",) and len(x[3]) in (3, 4, 5)
+            and x[3][1] in ("range", "builtins.range") and isinstance(x[2], tuple) and x[2][:1] == ("len",)
+            and all(T.is_c(a) and type(a[1]) is int for a in x[3][2:])):
+        members = range(*[a[1] for a in x[3][2:]]) if not (len(x[3]) == 5 and x[3][4][1] == 0) else None
+        if members is not None and len(members) <= 64:
+            return ("cmp", x[1], x[2], ("tuple", tuple(c(m) for m in members)))
+    return tuple(ranges_as_tuples(y) for y in x)
+
+
 def run(prog: Program, rep: Report, tier: str) -> None:
     rep.rule("R6.1", "gate normal form: hex(m)[0:4] == 'fef0' and len(m) in {165,168,159}; no other conjunct or disjunct; the gate itself cannot raise", 3)
     rep.rule("R6.2", "silent rejection: when the gate is false the only effect is a debug log and the function returns None - no callback, no warning, no exception; nothing that can raise is evaluated before the gate", 3)
@@ -48,11 +115,14 @@ def run(prog: Program, rep: Report, tier: str) -> None:
     rep.check(not raising, "R6.1", "gate cannot raise", where, f"the gate may raise {[o.exc_name for o in raising]} (e.g. when {T.show(conj(raising[0].state.pc))[:160] if raising else ''})", key="R6.1|raise")
     g = joined_value(outs)
     gate_cond: Optional[T.Term] = None
+    gate_foreign = False
     if g is None or T.contains_top(g):
         rep.undecided("R6.1", "gate normal form", where, f"gate not understood: {T.contains_top(g) if g else 'no return'}")
     else:
         I0 = Interp(prog)
         gate_cond = I0.truth(g, I0.new_state())
+        gate_raw = gate_cond                       # (R6.2 matches the builder's path conditions against the gate as written)
+        gate_cond = ranges_as_tuples(gate_cond)
         conjs = flatten(gate_cond, "and")
         magic_want = ("cmp", "==", T.seq("s", (("hx", MSG, 0, 4),)), T.seq("s", (("L", spec["gate"]["magic"]),)))
         magic_alt = ("cmp", "==", magic_want[3], magic_want[2])
@@ -81,7 +151,17 @@ def run(prog: Program, rep: Report, tier: str) -> None:
             return is_head_test(x) or is_len_test(x)
 
         foreign_conj = [x for x in conjs if not only_known_atoms(x)]
-        if foreign_conj:
+        gate_foreign = bool(foreign_conj)
+        table = gate_truth_table(gate_cond, (magic_want, magic_alt), MSG) if foreign_conj else None
+        if table is not None:
+            # a choice / boolean combination of the magic test and of length tests only: decided by its finite truth table
+            want_table = {(True, n) for n in spec["gate"]["lengths"]}
+            extra, missing = sorted(table - want_table, key=str), sorted(want_table - table, key=str)
+            rep.check(not any(not m for m, _ in extra) and not missing, "R6.1", "magic", where,
+                      f"gate is {T.show(gate_cond)[:300]}: by its truth table over (magic holds, length) it accepts {[x for x in extra if not x[0]][:3]} without the magic / rejects {missing[:3]}; it must require hex(m)[0:4] == '{spec['gate']['magic']}'", key="R6.1|magic")
+            rep.check(not any(m for m, _ in extra) and not missing, "R6.1", "lengths", where,
+                      f"gate is {T.show(gate_cond)[:300]}: by its truth table over (magic holds, length) it also accepts {[x for x in extra if x[0]][:3]} (None = any other length) / rejects {missing[:3]}; it must accept exactly {sorted(spec['gate']['lengths'])} and nothing else", key="R6.1|lengths")
+        elif foreign_conj:
             rep.undecided("R6.1", "gate normal form", where, f"gate is {T.show(gate_cond)[:300]}: the conjunct {T.show(foreign_conj[0])[:120]} is neither a test of the length nor of the leading bytes; "
                                                               f"whether the gate equals hex(m)[0:4] == 'fef0' and len(m) in {{165,168,159}} is not decided by comparing normal forms")
         else:
@@ -99,6 +179,7 @@ def run(prog: Program, rep: Report, tier: str) -> None:
             rep.check(ok_len and lens == set(spec["gate"]["lengths"]), "R6.1", "lengths", where,
                       f"gate is {T.show(gate_cond)[:300]}: accepted lengths {sorted(lens) if ok_len else '?'}; it must accept exactly {sorted(spec['gate']['lengths'])} and nothing else", key="R6.1|lengths")
         rep.sample({"gate_normal_form": T.show(gate_cond)[:400]})
+        gate_cond = gate_raw
 
     # ---- R6.2
     I, pouts = B.run_parse(prog, None)
@@ -110,7 +191,15 @@ def run(prog: Program, rep: Report, tier: str) -> None:
         neg_gate = neg(gate_cond)
         rejecting = [o for o in pouts if neg_gate in o.state.pc or all(x in o.state.pc for x in flatten(neg_gate, "and"))]
         accepting = [o for o in pouts if o not in rejecting]
-        rep.check(len(rejecting) >= 1, "R6.2", "rejecting path exists", pwhere, "no path of the builder is guarded by the negated gate (is the gate still consulted first?)", key="R6.2|exists")
+        # R6.2 finds the gate in the builder's path conditions by comparing terms.  When the gate has a form R6.1 does not
+        # compare (e.g. an `or` of calls, which the builder's paths split and the joined gate value spells as a choice), not
+        # finding it there says nothing about the code: undecided, never a violation (round 17, variant c06-twin-in-ranges)
+        if gate_foreign and not rejecting:
+            rep.undecided("R6.2", "rejecting path exists", pwhere, "the gate has a form R6.1 does not compare and no path condition of the builder spells its negation literally: whether the builder consults the gate first is not decided")
+            early_undecidable = True
+        else:
+            early_undecidable = False
+            rep.check(len(rejecting) >= 1, "R6.2", "rejecting path exists", pwhere, "no path of the builder is guarded by the negated gate (is the gate still consulted first?)", key="R6.2|exists")
         for o in rejecting:
             evs = [e for e in o.state.events if e.kind == "call"]
             bad = [e for e in evs if not e.target.startswith("logger.debug")]
@@ -118,6 +207,9 @@ def run(prog: Program, rep: Report, tier: str) -> None:
             rep.check(okp, "R6.2", "rejection is silent", pwhere,
                       f"on the gate-false path the builder {'raises ' + o.exc_name if o.kind == 'raise' else 'does ' + ', '.join(e.target for e in bad)}; it must only log at debug level and return", key="R6.2|silent")
         early = [o for o in accepting if o.kind == "raise" and not (gate_cond in o.state.pc or all(x in o.state.pc for x in flatten(gate_cond, "and")))]
+        if early_undecidable and early:
+            rep.undecided("R6.2", "nothing raises before the gate", pwhere, f"{len(early)} raising path(s) carry no literal copy of the gate in their condition; the gate has a form this rule does not compare")
+            early = []
         rep.check(not early, "R6.2", "nothing raises before the gate", pwhere,
                   f"{len(early)} raising path(s) are not guarded by the gate, e.g. {early[0].exc_name + ' at ' + early[0].value[3] if early else ''}: a foreign datagram can raise", key="R6.2|before-gate")
 
